@@ -170,3 +170,29 @@ package ro
 //@   binds obsA obsB obsC obsD obsE
 //@   track call.ANY callfn.ANY
 //@   ensures [combines-A-with-the-others-in-order|C04,C05] trace(call.CombineLatestWith4(obsB, obsC, obsD, obsE), callfn.ANY(obsA))
+
+//@ func RangeWithInterval
+//@   props C04 C16
+//@   binds start end interval
+//@   track call.ANY callfn.ANY
+//@   ensures [an-empty-range-is-empty|C04] start == end ==> trace(call.Empty())
+//@   ensures [ticks-mapped-onto-the-range-and-cut-at-its-length|C04,C16] start != end ==> trace(call.Interval(interval), call.Map(_), call.Take(ite(start < end, end - start, start - end)), call.Pipe2(res(call.Interval), res(call.Map), res(call.Take)))
+
+//@ func RangeWithInterval$1
+//@   note the k-th tick becomes start + k (ascending) or start - k (descending)
+//@   props C04
+//@   binds v start end
+//@   ensures [kth-tick-is-the-kth-element|C04] result == ite(start < end, start + v, start - v)
+
+//@ func RepeatWithInterval
+//@   props C04 C16
+//@   binds item count interval
+//@   maypanic
+//@   track call.ANY callfn.ANY
+//@   ensures [nothing-to-repeat-is-empty|C04] !panics && count == 0 ==> trace(call.Empty())
+//@   ensures [one-item-per-tick-count-times|C04,C16] !panics && count != 0 ==> trace(call.RangeWithInterval(0, count, interval), call.Map(_), call.Pipe1(res(call.RangeWithInterval), res(call.Map))) && count > 0
+
+//@ func RepeatWithInterval$1
+//@   props C04
+//@   binds item
+//@   ensures [every-tick-becomes-the-item|C04] result == item
